@@ -174,7 +174,9 @@ func parseRpmHeader(b []byte) (*RpmHeader, int, error) {
 			continue
 		}
 		d := store[t.Offset:]
-		bad := func() { h.Errs = append(h.Errs, fmt.Sprintf("tag %d (type %d count %d) runs past the store", t.Tag, t.Type, t.Count)) }
+		bad := func() {
+			h.Errs = append(h.Errs, fmt.Sprintf("tag %d (type %d count %d) runs past the store", t.Tag, t.Type, t.Count))
+		}
 		switch t.Type {
 		case 0: // NULL
 		case 1, 2: // CHAR, INT8
